@@ -435,15 +435,29 @@ def decide(assertions, cap, label, log, want="unsat"):
     with open(path, "w") as fh:
         fh.write(smt2)
     t0 = time.time()
+    cap2 = min(cap, 45)
     try:
-        p = subprocess.run(["cvc5", "--lang", "smt2", "--tlimit=%d" % int(cap * 1000), path],
-                           stdout=subprocess.PIPE, stderr=subprocess.STDOUT, text=True, timeout=cap + 10)
+        p = subprocess.run(["cvc5", "--lang", "smt2", "--tlimit=%d" % int(cap2 * 1000), path],
+                           stdout=subprocess.PIPE, stderr=subprocess.STDOUT, text=True, timeout=cap2 + 10)
         out = p.stdout.strip().splitlines()
         r2 = out[0].strip() if out else "unknown"
         if any("(error" in l for l in out):
             r2 = "error"
     except subprocess.TimeoutExpired:
         r2 = "timeout"
+    if r2 not in ("sat", "unsat"):
+        # cvc5 gave no answer within its (shorter) cap: ask the other installed z3 (4.8.12 CLI;
+        # the Python bindings are z3 5.1.0) for the second opinion instead
+        try:
+            p = subprocess.run(["/usr/bin/z3", "-T:%d" % int(cap), path], stdout=subprocess.PIPE,
+                               stderr=subprocess.STDOUT, text=True, timeout=cap + 10)
+            out = p.stdout.strip().splitlines()
+            r3 = out[0].strip() if out else "unknown"
+            if any("(error" in l for l in out):
+                r3 = "error"
+        except subprocess.TimeoutExpired:
+            r3 = "timeout"
+        r2 = ("z3-4.8.12:" + r3) if r3 in ("sat", "unsat") else "cvc5:%s,z3-4.8.12:%s" % (r2, r3)
     tc = time.time() - t0
     log["queries"].append({"label": label, "z3": str(r), "z3_s": round(tz, 2), "cvc5": r2, "cvc5_s": round(tc, 2)})
     return str(r), r2, model
@@ -471,12 +485,12 @@ class Ob:
             self.verdict = "TIMEOUT" if self.verdict == "PASS" else self.verdict
             self.note = label + ": z3 " + r
             return False
-        if r2 == "sat" or r2 == "error":
+        if r2.endswith("sat") and not r2.endswith("unsat") or "error" in r2:
             self.verdict = "ERROR"
-            self.note = label + ": solvers disagree / error (z3 unsat, cvc5 %s)" % r2
+            self.note = label + ": solvers disagree / error (z3 unsat, second %s)" % r2
             return False
-        if r2 != "unsat":
-            self.note += " [%s: cvc5 %s, z3 only]" % (label, r2)
+        if not r2.endswith("unsat"):
+            self.note += " [%s: no second opinion (%s)]" % (label, r2)
         # vacuity witness
         rv, _, _ = decide(list(hyps), self.cap, label + ".witness", self.log)
         if rv != "sat":
